@@ -349,7 +349,7 @@ void do_printf_ints(S &sink, char t, format_options opts,
 			// print nothing in this case
 		}else{
 			_fmt_basics::print_int(sink, number, 10, opts.minimum_width,
-					opts.precision ? *opts.precision : 1, opts.fill_zeros ? '0' : ' ',
+					opts.precision ? *opts.precision : 1, (opts.fill_zeros && !opts.precision) ? '0' : ' ',
 					opts.left_justify, opts.group_thousands, opts.always_sign,
 					opts.plus_becomes_space, false, locale_opts);
 		}
@@ -364,8 +364,8 @@ void do_printf_ints(S &sink, char t, format_options opts,
 				// print nothing in this case
 			}else{
 				_fmt_basics::print_int(sink, number, 2, opts.minimum_width,
-						opts.precision ? *opts.precision : 1, opts.fill_zeros ? '0' : ' ',
-						opts.left_justify, false, opts.always_sign, opts.plus_becomes_space,
+						opts.precision ? *opts.precision : 1, (opts.fill_zeros && !opts.precision) ? '0' : ' ',
+						opts.left_justify, false, false, false,
 						false, locale_opts);
 			}
 		};
@@ -396,8 +396,8 @@ void do_printf_ints(S &sink, char t, format_options opts,
 				// print nothing in this case
 			}else{
 				_fmt_basics::print_int(sink, number, 8, opts.minimum_width,
-						opts.precision ? *opts.precision : 1, opts.fill_zeros ? '0' : ' ',
-						opts.left_justify, false, opts.always_sign, opts.plus_becomes_space,
+						opts.precision ? *opts.precision : 1, (opts.fill_zeros && !opts.precision) ? '0' : ' ',
+						opts.left_justify, false, false, false,
 						false, locale_opts);
 			}
 		};
@@ -429,8 +429,8 @@ void do_printf_ints(S &sink, char t, format_options opts,
 				// print nothing in this case
 			}else{
 				_fmt_basics::print_int(sink, number, 16, opts.minimum_width,
-						opts.precision ? *opts.precision : 1, opts.fill_zeros ? '0' : ' ',
-						opts.left_justify, false, opts.always_sign, opts.plus_becomes_space,
+						opts.precision ? *opts.precision : 1, (opts.fill_zeros && !opts.precision) ? '0' : ' ',
+						opts.left_justify, false, false, false,
 						t == 'X', locale_opts);
 			}
 		};
@@ -459,9 +459,9 @@ void do_printf_ints(S &sink, char t, format_options opts,
 				// print nothing in this case
 			}else{
 				_fmt_basics::print_int(sink, number, 10, opts.minimum_width,
-						opts.precision ? *opts.precision : 1, opts.fill_zeros ? '0' : ' ',
-						opts.left_justify, opts.group_thousands, opts.always_sign,
-						opts.plus_becomes_space, false, locale_opts);
+						opts.precision ? *opts.precision : 1, (opts.fill_zeros && !opts.precision) ? '0' : ' ',
+						opts.left_justify, opts.group_thousands, false,
+						false, false, locale_opts);
 			}
 		};
 
